@@ -68,25 +68,32 @@ def main():
                 continue
             if mode == "nest_y":
                 # faces of the coarse grid (ylow, incl. the last) = every second face of the fine grid
+                myg1 = int(c1.mesh.user_options.y_boundary_guards)
+                myg2 = int(c2.mesh.user_options.y_boundary_guards)
+                o1 = myg1 if a_.connections["lower"] is None else 0
+                o2 = myg2 if a_.connections["lower"] is None else 0
+                u1 = myg1 if a_.connections["upper"] is None else 0
+                nyng = a_.ny - o1 - u1  # cells between the targets
+                k = np.arange(nyng + 1)
+                j1, j2 = o1 + k, o2 + 2 * k
                 for loc in ("ylow", "corners"):
                     Ra, Za = getattr(a_.Rxy, loc), getattr(a_.Zxy, loc)
-                    Rb, Zb = getattr(b_.Rxy, loc)[:, ::2], getattr(b_.Zxy, loc)[:, ::2]
-                    if Ra.shape != Rb.shape:
-                        acc.add("fine grid has twice the y-cells", cls, 1.0, 0, sig="%s %s vs %s" % (name, Ra.shape, Rb.shape))
+                    Rf, Zf = getattr(b_.Rxy, loc), getattr(b_.Zxy, loc)
+                    if Rf.shape[1] <= j2.max() or Ra.shape[0] != Rf.shape[0]:
+                        acc.add("fine grid has twice the y-cells", cls, 1.0, 0, sig="%s %s vs %s" % (name, Ra.shape, Rf.shape))
                         continue
-                    dd = np.hypot(Ra - Rb, Za - Zb)
-                    myg1 = int(c1.mesh.user_options.y_boundary_guards)
-                    dom = np.ones(dd.shape[1], bool)
-                    if a_.connections["lower"] is None:
-                        dom[:myg1] = False
-                    if a_.connections["upper"] is None:
-                        dom[dd.shape[1] - myg1 :] = False
-                    acc.add("original y-faces are faces of the grid with doubled ny (faces between the targets)", cls, float(dd[:, dom].max()), 1e-7, where={"region": name, "loc": loc}, n=int(dom.sum()) * dd.shape[0], note="bounded by refine_atol/|grad psi| and the FineContour interpolation (observed 1e-12)")
-                    if (~dom).any():
-                        acc.add("original y-faces are faces of the grid with doubled ny (boundary guard cells)", cls, float(dd[:, ~dom].max()), 1e-7, where={"region": name, "loc": loc}, n=int((~dom).sum()) * dd.shape[0], sig="guard faces of %s differ between the two resolutions" % name)
-                pd1 = a_.poloidal_distance.ylow
-                pd2 = b_.poloidal_distance.ylow[:, ::2]
-                acc.add("poloidal_distance at the original faces unchanged (faces between the targets)", cls, float(np.abs(pd1 - pd2)[:, dom].max()), 1e-7, where={"region": name})
+                    dd = np.hypot(Ra[:, j1] - Rf[:, j2], Za[:, j1] - Zf[:, j2])
+                    acc.add("original y-faces are faces of the grid with doubled ny (faces between the targets)", cls, float(dd.max()), 1e-7, where={"region": name, "loc": loc}, n=dd.size, note="bounded by refine_atol/|grad psi| and the FineContour interpolation (observed 1e-12)")
+                    if myg2 == 2 * myg1 and (o1 or u1):
+                        # the guard cells were doubled as well: they nest too
+                        g1 = np.array([j for j in range(Ra.shape[1]) if j < o1 or j > o1 + nyng], int)
+                        g2 = np.where(g1 < o1, 2 * g1, o2 + 2 * nyng + 2 * (g1 - o1 - nyng))
+                        if len(g1) and g2.max() < Rf.shape[1]:
+                            dg = np.hypot(Ra[:, g1] - Rf[:, g2], Za[:, g1] - Zf[:, g2])
+                            acc.add("original y-faces are faces of the grid with doubled ny (boundary guard cells)", cls, float(dg.max()), 1e-7, where={"region": name, "loc": loc}, n=dg.size, sig="guard faces of %s differ between the two resolutions" % name)
+                pd1 = a_.poloidal_distance.ylow[:, j1]
+                pd2 = b_.poloidal_distance.ylow[:, j2]
+                acc.add("poloidal_distance at the original faces unchanged (faces between the targets)", cls, float(np.abs((pd1 - pd1[:, :1]) - (pd2 - pd2[:, :1])).max()), 1e-7, where={"region": name})
             else:
                 pa = np.asarray(a_.psi_vals)[::2]
                 pb = np.asarray(b_.psi_vals)[::4]
